@@ -52,9 +52,6 @@ class Contract:
             return bv(64 * 1024 * 1024)
         if t.endswith('JOURNAL_BUFFER_BYTES'):
             return bv(8 * 1024)
-        if t.endswith('MAGIC_BYTES') or t.endswith('file::MAGIC_BYTES'):
-            o = Obj('[u8; 4]', 'MAGIC_BYTES', 'bytes'); o.data['segs'] = [('const', 'FJL\\x03')]; o.data['len'] = 4
-            return Ref(Cell(o), bv(4))
         m = re.fullmatch(r'(?:lsm_tree::)?(?:SeqNo|u64)::MAX|core::num::<impl u64>::MAX|std::u64::MAX', t)
         if m:
             return bv(2 ** 64 - 1)
@@ -1403,7 +1400,8 @@ def canon_id(v):
             if 'ptr' in v.fields and v.fields['ptr'].val is not None:
                 v = v.fields['ptr'].val; continue
             if v.kind in ('struct', 'opaque') and set(v.fields.keys()) == {0} and isinstance(deref(v.fields[0].val), Obj) and \
-                    (base_name(v.ty) in ('Keyspace', 'Database', 'Snapshot', 'SnapshotTracker', 'Supervisor', 'OptimisticTxKeyspace', 'SingleWriterTxKeyspace')):
+                    (base_name(v.ty) in ('Keyspace', 'Database', 'Snapshot', 'SnapshotTracker', 'Supervisor', 'OptimisticTxKeyspace', 'SingleWriterTxKeyspace')
+                     or 'ptr' in deref(v.fields[0].val).fields):
                 v = v.fields[0].val; continue
             return ('obj', v.uid)
         break
@@ -2591,3 +2589,89 @@ def s_generic_clone(ex, st, call):
     if isinstance(a, EnumV) or z3.is_expr(a):
         return a
     return NotImplemented
+
+
+# =============================================================================== small byte slices with symbolic content (version marker)
+def byte_elems(o):
+    """list of 8-bit values of a byte buffer made only of single-byte segments, else None"""
+    if not isinstance(o, Obj):
+        return None
+    if o.kind == 'array' and o.data.get('len') is not None and all(('i', i) in o.fields for i in range(o.data['len'])):
+        return [o.fields[('i', i)].val for i in range(o.data['len'])]
+    if 'bytes' in o.data and isinstance(o.data['bytes'], str) and 'segs' not in o.data:
+        raw = o.data['bytes'].encode('latin1').decode('unicode_escape').encode('latin1')
+        return [z3.BitVecVal(b, 8) for b in raw]
+    segs = o.data.get('segs')
+    if segs is not None and all(s[0] == 'u8' for s in segs):
+        return [z3.BitVecVal(s[1], 8) if isinstance(s[1], int) else s[1] for s in segs]
+    if segs is not None and len(segs) == 1 and segs[0][0] == 'const' and isinstance(segs[0][1], str):
+        raw = segs[0][1].encode('latin1').decode('unicode_escape').encode('latin1')
+        return [z3.BitVecVal(b, 8) for b in raw]
+    return None
+
+
+@rule(r'^core::slice::<impl \[u8\]>::get$', prio=1)
+def s_slice_get(ex, st, call):
+    a = call.args[0]
+    buf = deref(a)
+    el = byte_elems(buf)
+    if el is None:
+        return NotImplemented
+    base = a.meta.pos if isinstance(a, Ref) and isinstance(a.meta, SliceView) else 0
+    el = el[base:]
+    idx = call.args[1]
+    if isinstance(idx, Obj) and 0 in idx.fields and 1 in idx.fields:      # Range<usize>
+        lo, hi = z3.simplify(idx.fields[0].val), z3.simplify(idx.fields[1].val)
+        if z3.is_bv_value(lo) and z3.is_bv_value(hi):
+            lo, hi = lo.as_long(), hi.as_long()
+            if lo <= hi <= len(el):
+                v = Obj('[u8]', 'subslice', 'bytes'); v.data['segs'] = [('u8', x) for x in el[lo:hi]]
+                return ex.mk_enum(call.dst_ty, 'Some', [Ref(Cell(v), SliceView(0))])
+            return ex.mk_enum(call.dst_ty, 'None')
+    if z3.is_bv(idx):
+        i = z3.simplify(idx)
+        if z3.is_bv_value(i):
+            if i.as_long() < len(el):
+                return ex.mk_enum(call.dst_ty, 'Some', [Ref(Cell(el[i.as_long()]))])
+            return ex.mk_enum(call.dst_ty, 'None')
+    return NotImplemented
+
+
+@rule(r'^<\[u8\] as PartialEq<\[u8; \d+\]>>::(eq|ne)$', r'^<&?\[u8\] as PartialEq<&?\[u8(; \d+)?\]>>::(eq|ne)$', r'^<\[u8; \d+\] as PartialEq(<.*>)?>::(eq|ne)$', prio=1)
+def s_bytes_eq(ex, st, call):
+    a, b = deref(call.args[0]), deref(call.args[1])
+    ea, eb = byte_elems(a), byte_elems(b)
+    if ea is None or eb is None:
+        return NotImplemented
+    if isinstance(call.args[0], Ref) and isinstance(call.args[0].meta, SliceView):
+        ea = ea[call.args[0].meta.pos:]
+    if len(ea) != len(eb):
+        r = z3.BoolVal(False)
+    else:
+        r = z3.And(*[x == y for x, y in zip(ea, eb)]) if ea else z3.BoolVal(True)
+    return r if call.c0.endswith('eq') else z3.Not(r)
+
+
+@rule(r'^(core::intrinsics::|std::intrinsics::)?discriminant_value$')
+def s_discriminant_value(ex, st, call):
+    v = deref(call.args[0])
+    if isinstance(v, Obj):
+        v = ex.to_enum(st, v)
+    if isinstance(v, EnumV):
+        return bv(v.disc) if isinstance(v.disc, int) else v.disc
+    return NotImplemented
+
+
+@rule(r'^<.* as PartialEq(<.*>)?>::ne$', prio=-1)
+def s_default_ne(ex, st, call):
+    """PartialEq::ne is a provided method: !self.eq(other)"""
+    eq = call.callee[:-4] + '::eq' if call.callee.endswith('::ne') else None
+    if eq is None:
+        return NotImplemented
+    fn, sty = ex.resolve(eq, call.frame)
+    if fn is None and ex.contract.lookup(strip_turbofish(eq), eq) is None:
+        return NotImplemented
+    out = []
+    for s2, v in ex.do_call(st, call.depth, eq, call.args, 'bool'):
+        out.append((s2, z3.Not(v) if z3.is_bool(v) else v))
+    return out
